@@ -281,7 +281,7 @@ pub fn run_case(rep: &mut Report, case: &Case) {
             Ok(before) => judge_log(rep, case, &clock.log, Some(before), "kalman", &replay),
             Err(p) => {
                 judge_log(rep, case, &clock.log, None, "kalman", &replay);
-                rep.violation(&format!("C13|kalman|panic|{}|{}|{}", p.file(), p.class(), clock_class(case)), &format!("KalmanFilter panicked: {} at {} [{cls}]", p.message, p.location), replay.clone());
+                rep.violation(&format!("C13|kalman|panic|{}|{}|{}", p.site(), p.class(), clock_class(case)), &format!("KalmanFilter panicked: {} at {} [{cls}]", p.message, p.location), replay.clone());
             }
         }
     }
@@ -322,7 +322,7 @@ pub fn run_case(rep: &mut Report, case: &Case) {
             Ok(before) => judge_log(rep, case, &clock.log, Some(before), "basic", &replay),
             Err(p) => {
                 judge_log(rep, case, &clock.log, None, "basic", &replay);
-                rep.violation(&format!("C13|basic|panic|{}|{}|{}", p.file(), p.class(), clock_class(case)), &format!("BasicFilter panicked: {} at {} [{cls}]", p.message, p.location), replay.clone());
+                rep.violation(&format!("C13|basic|panic|{}|{}|{}", p.site(), p.class(), clock_class(case)), &format!("BasicFilter panicked: {} at {} [{cls}]", p.message, p.location), replay.clone());
             }
         }
     }
@@ -436,7 +436,7 @@ fn port_demobilize(rep: &mut Report, seed: u64) {
     let how = rng.gen_range(0..2);
     let r = if how == 0 { node.call(0, Call::AnnounceReceiptTimer).map(|_| ()) } else { node.set_slave_only(true).and_then(|_| node.bmca().map(|_| ())) };
     if let Err(p) = r {
-        rep.violation(&format!("C13|port|panic|{}|{}", p.file(), p.class()), &format!("leaving slave state panicked: {}", p.message), replay);
+        rep.violation(&format!("C13|port|panic|{}|{}", p.site(), p.class()), &format!("leaving slave state panicked: {}", p.message), replay);
         return;
     }
     if node.port_state(0) == statime::observability::port::PortState::Slave {
